@@ -40,5 +40,56 @@ class DetSubscriber(sd.ServiceSubscriber):
 sd.ServiceSubscriber = DetSubscriber
 
 
+# ---- process-global state of the library: one run must not see what another left behind
+# (class attributes and module globals that are mutable containers, functools caches). A snapshot is taken at import,
+# every run starts from it. The unchanged library has no such state that changes; a changed one may.
+import copy as _copy  # noqa: E402
+import someip.utils as _utils  # noqa: E402
+
+_MUTABLE = (dict, list, set, bytearray)
+_snap = []
+_caches = []
+LEAKS = [0]
+
+
+def _snapshot():
+    seen = set()
+    for mod in (header, config, sd, service, _utils):
+        for name, val in list(vars(mod).items()):
+            if name.startswith("__"):
+                continue
+            owners = [val]
+            if isinstance(val, type) and getattr(val, "__module__", None) == mod.__name__:
+                owners += [av for an, av in vars(val).items() if not an.startswith("__")]
+            for o in owners:
+                if hasattr(o, "cache_clear") and callable(o.cache_clear) and id(o) not in seen:
+                    seen.add(id(o))
+                    _caches.append(o)
+                f = getattr(o, "__func__", None)
+                if f is not None and hasattr(f, "cache_clear") and id(f) not in seen:
+                    seen.add(id(f))
+                    _caches.append(f)
+                if isinstance(o, _MUTABLE) and id(o) not in seen:
+                    seen.add(id(o))
+                    _snap.append((o, _copy.copy(o)))
+
+
+def _restore():
+    for c in _caches:
+        c.cache_clear()
+    for obj, orig in _snap:
+        if obj != orig:
+            LEAKS[0] += 1
+            if isinstance(obj, (list, bytearray)):
+                obj[:] = orig
+            else:
+                obj.clear()
+                obj.update(orig)
+
+
+_snapshot()
+
+
 def reset():
     _hash_counter[0] = 0
+    _restore()
